@@ -205,7 +205,7 @@ theorem stepOK_x (vals : List K) (hall : T.length ≤ vals.length) (fops : List 
     (hassoc : ∀ o ∈ fops, o.comm = true →
       ∀ x y z, I.bin o.idx (I.bin o.idx x y) z = I.bin o.idx x (I.bin o.idx y z))
     (ht : ∀ o ∈ fops, ∃ b, tblBin t o.idx = some b ∧ b.comm = o.comm)
-    (hnames : ∀ o ∈ fops, String.ofList (reprOf t o.idx) ∈ ["+", "-", "*", "/", "^"])
+    (hnames : ∀ o ∈ fops, String.ofList (reprOf t o.idx) ∈ binRuleNames)
     (hun : ∀ o ∈ fops, ∀ u ∈ o.un, PU t u) (htp : TblPrio t)
     (k : Nat) (hk : k < fops.length) :
     StepOK I t fops (fun nd v => GoodN I T vals nd v ∧ XN t T nd) (flatApplyT I fops) k := by
@@ -230,10 +230,10 @@ end
 section
 variable {K : Type} (I : Interp K) (t : Table)
 
-/-- what C05/C09 ask of a flat expression: its binary operators have the five arithmetic names,
+/-- what C05/C09 ask of a flat expression: its binary operators have names with a binary rule,
     its unary operators have outer rules and are unary operators of the table -/
 structure FlatRuled (f : FlatEx K) : Prop where
-  bin : ∀ o ∈ f.ops, String.ofList (reprOf t o.idx) ∈ ["+", "-", "*", "/", "^"]
+  bin : ∀ o ∈ f.ops, String.ofList (reprOf t o.idx) ∈ binRuleNames
   unOps : ∀ o ∈ f.ops, ∀ u ∈ o.un, PU t u
   unNodes : ∀ n ∈ f.nodes, ∀ u ∈ n.un, PU t u
 
